@@ -184,7 +184,7 @@ static AbstractMessageIOGatewayRef MakeReceiver(int t, const Cfg & cfg)
    switch(t)
    {
       case T_TMPL: {TemplatingMessageIOGateway * g = new MeteredExactFrame<TemplatingMessageIOGateway>((uint32) cfg.i("lru", 100000)); if (maxin) g->SetMaxIncomingMessageSize(maxin); return AbstractMessageIOGatewayRef(g);}
-      case T_TEXT: return AbstractMessageIOGatewayRef(new PlainTextMessageIOGateway);
+      case T_TEXT: return (cfg.i("lru", 0) % 3 == 0) ? AbstractMessageIOGatewayRef(new TelnetPlainTextMessageIOGateway) : AbstractMessageIOGatewayRef(new PlainTextMessageIOGateway);   // (every third text run: the telnet variant, whose IAC state machine sees the rewritten bytes)
       case T_RAW:  return AbstractMessageIOGatewayRef(new RawDataMessageIOGateway((uint32) cfg.i("minchunk", 0)));
       case T_SLIP: return AbstractMessageIOGatewayRef(new SLIPFramedDataMessageIOGateway);
       case T_WS:   {WebSocketMessageIOGateway * s = new WebSocketMessageIOGateway; MessageIOGateway * sg = new MeteredExactFrame<MessageIOGateway>(); if (maxin) sg->SetMaxIncomingMessageSize(maxin); s->SetSlaveGateway(AbstractMessageIOGatewayRef(sg)); return AbstractMessageIOGatewayRef(s);}
